@@ -303,8 +303,106 @@ def family_recursion():
     return [m.done("recursion")]
 
 
+# ---------------------------------------------------------------- 7. strictness: what must run, in which order
+def family_strictness():
+    m = Mod()
+    g = m.g
+    IF = lambda c, t, e: {"k": "if", "c": c, "t": t, "e": e}
+    LET = lambda x, e, body, ty=INT: {"k": "let", "x": x, "ty": ty, "e": e, "body": body}
+    g.add_fn("crash0", [], [], INT, {"k": "fail"})
+    g.add_fn("seven0", [], [], INT, I(7))
+    g.add_fn("div0", [], [], INT, binop("/", call("seven0"), binop("-", call("seven0"), I(7))))
+    ints = [[DI(0)], [DI(1)], [DI(-3)], [DI(150)], [DI(250)]]
+    A = V("arg0")
+    for f in ("crash0", "div0", "seven0"):
+        # bound, used only on a path that is not taken; a second call site elsewhere
+        m.entry([INT], INT, LET("v", call(f), LET("w", IF(binop(">", A, I(200)), call(f), I(1)), IF(binop(">", A, I(100)), binop("+", V("v"), V("w")), V("w")))), ints)
+        # bound and used by the result
+        m.entry([INT], INT, LET("v", call(f), binop("+", V("v"), IF(binop(">", A, I(200)), call(f), I(1)))), ints)
+        # called in the branch only
+        m.entry([INT], INT, IF(binop(">", A, I(100)), binop("+", call(f), call(f)), I(5)), ints)
+    # guards: and / or blocks and infix chains, an aborting operand behind a guard, in every position
+    div = lambda k: binop(">", binop("/", I(k), A), I(1))
+    ne0 = binop("!=", A, I(0))
+    eq0 = binop("==", A, I(0))
+    pos = binop(">", A, I(0))
+    m.entry([INT], BOOL, {"k": "and", "es": [ne0, div(10)]}, ints)
+    m.entry([INT], BOOL, {"k": "and", "es": [ne0, pos, div(10)]}, ints)
+    m.entry([INT], BOOL, {"k": "and", "es": [pos, ne0, div(300)]}, ints)
+    m.entry([INT], BOOL, {"k": "and", "es": [div(10), ne0]}, ints)
+    m.entry([INT], BOOL, {"k": "or", "es": [eq0, div(10)]}, ints)
+    m.entry([INT], BOOL, {"k": "or", "es": [eq0, binop("<", A, I(0)), div(300)]}, ints)
+    m.entry([INT], BOOL, {"k": "or", "es": [div(10), eq0]}, ints)
+    m.entry([INT], BOOL, binop("&&", ne0, binop("&&", pos, div(10))), ints)
+    m.entry([INT], BOOL, binop("||", eq0, binop("||", binop("<", A, I(0)), div(10))), ints)
+    m.entry([INT], BOOL, {"k": "and", "es": [{"k": "or", "es": [eq0, div(10)]}, {"k": "or", "es": [pos, div(5)]}]}, ints)
+    # Bool comparisons with literals, both sides
+    for op in ("==", "!="):
+        for lit in (True, False):
+            m.entry([INT], BOOL, binop(op, pos, {"k": "bool", "b": lit}), ints)
+            m.entry([INT], BOOL, binop(op, {"k": "bool", "b": lit}, pos), ints)
+    m.entry([INT], BOOL, binop("!=", pos, ne0), ints)
+    # `?` on a negation / comparison / conjunction
+    m.entry([INT], BOOL, {"k": "traceif", "e": {"k": "not", "e": pos}}, ints)
+    m.entry([INT], BOOL, {"k": "not", "e": {"k": "traceif", "e": pos}}, ints)
+    m.entry([INT], BOOL, {"k": "traceif", "e": binop("&&", pos, ne0)}, ints)
+    m.entry([INT], BOOL, binop("&&", {"k": "traceif", "e": {"k": "not", "e": eq0}}, {"k": "traceif", "e": div(10)}), ints)
+    mods = [m.done("strictness")]
+    # expect on a discard: the right-hand side still runs
+    m = Mod()
+    rhss = [call("guard_pos", A), binop("/", I(10), A), IF(binop(">", A, I(100)), {"k": "fail"}, I(1))]
+    for rhs in rhss:
+        m.entry([INT], INT, {"k": "expect", "p": {"p": "discard"}, "ty": INT, "e": rhs, "body": I(3)}, ints)
+        m.entry([INT], INT, {"k": "expect", "p": {"p": "discard", "name": "_unused"}, "ty": INT, "e": rhs, "body": I(4)}, ints)
+        m.entry([INT], INT, {"k": "letp", "p": {"p": "tuple", "ps": [{"p": "discard"}, {"p": "var", "x": "y"}]}, "ty": TTuple(INT, INT),
+                             "e": {"k": "tuple", "es": [rhs, I(9)]}, "body": V("y")}, ints)
+    m.entry([TOption(INT)], INT, {"k": "expect", "p": {"p": "con", "ty": "Option", "i": 0, "args": [{"p": "discard"}]}, "ty": TOption(INT), "e": A, "body": I(5)},
+            [[DC(0, DI(1))], [DC(1)]])
+    mods.append(m.done("strictness"))
+    return mods
+
+
+# ---------------------------------------------------------------- 8. generic functions at several instantiations in one program
+def family_generics():
+    m = Mod()
+    g = m.g
+    a, b = ag.TVar("a"), ag.TVar("b")
+    g.add_fn("singleton", ["x"], [a], TList(a), {"k": "list", "es": [V("x")]})
+    g.add_fn("pair_up", ["x", "y"], [a, b], TTuple(a, b), {"k": "tuple", "es": [V("x"), V("y")]})
+    g.add_fn("choose", ["c", "x", "y"], [BOOL, a, a], a, {"k": "if", "c": V("c"), "t": V("x"), "e": V("y")})
+    g.add_fn("wrap_opt", ["x"], [a], TOption(a), {"k": "con", "ty": "Option", "i": 0, "args": [V("x")]})
+    g.add_fn("second_of", ["x", "y"], [a, b], b, {"k": "letu", "x": "ignored", "ty": a, "e": V("x"), "body": V("y")})
+    g.add_fn("count", ["xs"], [TList(a)], INT,
+             {"k": "when", "s": V("xs"), "cs": [
+                 {"p": {"p": "list", "ps": [], "tail": "none"}, "b": I(0)},
+                 {"p": {"p": "list", "ps": [{"p": "discard"}], "tail": "var", "x": "t"}, "b": binop("+", I(1), call("count", V("t")))}]})
+    grid = [[DI(3), DB(1, 2)], [DI(-1), DB()], [DI(0), DB(255)]]
+    A, B = V("arg0"), V("arg1")
+    TP = TTuple
+    idx = lambda e, i, ty: {"k": "tupidx", "e": e, "i": i, "ty": ty}
+    # both permutations of a two-parameter generic in one program
+    m.entry([INT, BYTES], TP(INT, BYTES), {"k": "tuple", "es": [idx(call("pair_up", A, B), 1, TP(INT, BYTES)), idx(call("pair_up", B, A), 1, TP(BYTES, INT))]}, grid)
+    m.entry([INT, BYTES], TP(BYTES, INT), {"k": "tuple", "es": [idx(call("pair_up", A, B), 2, TP(INT, BYTES)), idx(call("pair_up", B, A), 2, TP(BYTES, INT))]}, grid)
+    m.entry([INT, BYTES], TP(INT, INT), {"k": "tuple", "es": [idx(call("pair_up", A, A), 2, TP(INT, INT)), idx(call("pair_up", B, A), 2, TP(BYTES, INT))]}, grid)
+    m.entry([INT, BYTES], TP(BYTES, INT), {"k": "tuple", "es": [call("second_of", A, B), call("second_of", B, A)]}, grid)
+    # one-parameter generics at scalar, list, pair-list (a map) and option instantiations
+    pairs_ty = TList(TPair(INT, BYTES))
+    m.entry([INT, BYTES], INT, binop("+", call("count", call("singleton", A)), call("count", call("singleton", {"k": "pair", "a": A, "b": B}))), grid)
+    m.entry([INT, BYTES], pairs_ty, call("singleton", {"k": "pair", "a": A, "b": B}), grid)
+    m.entry([INT, BYTES], TP(TList(INT), pairs_ty), {"k": "tuple", "es": [call("singleton", A), call("singleton", {"k": "pair", "a": A, "b": B})]}, grid)
+    m.entry([INT, BYTES], TP(pairs_ty, TList(INT)), {"k": "tuple", "es": [call("singleton", {"k": "pair", "a": A, "b": B}), call("singleton", A)]}, grid)
+    m.entry([INT, BYTES], TP(TList(TList(INT)), TList(BYTES)), {"k": "tuple", "es": [call("singleton", call("singleton", A)), call("singleton", B)]}, grid)
+    m.entry([INT, BYTES], TP(TOption(INT), TOption(BYTES)), {"k": "tuple", "es": [call("wrap_opt", A), call("wrap_opt", B)]}, grid)
+    m.entry([INT, BYTES], TP(TOption(TOption(INT)), TOption(TList(BYTES))), {"k": "tuple", "es": [call("wrap_opt", call("wrap_opt", A)), call("wrap_opt", call("singleton", B))]}, grid)
+    m.entry([INT, BYTES], TP(INT, BYTES), {"k": "tuple", "es": [call("choose", binop(">", A, I(0)), A, I(9)), call("choose", binop(">", A, I(0)), B, {"k": "bytes", "bs": [7]})]}, grid)
+    m.entry([INT, BYTES], TP(TList(INT), TP(INT, BYTES)), {"k": "tuple", "es": [call("choose", binop(">", A, I(0)), call("singleton", A), {"k": "list", "es": []}),
+                                                                               call("choose", binop("<", A, I(0)), call("pair_up", A, B), call("pair_up", I(0), B))]}, grid)
+    return [m.done("generics")]
+
+
 def all_families():
-    return family_expect_list() + family_cast() + family_trace_only() + family_repeated_constant() + family_data_param() + family_recursion()
+    return family_expect_list() + family_cast() + family_trace_only() + family_repeated_constant() + family_data_param() + family_recursion() + \
+        family_strictness() + family_generics()
 
 
 # ---------------------------------------------------------------- ill-typed table (C06): a value of T1 where T2 is required
